@@ -15,7 +15,8 @@ CHECKS = {
              'belong to one iterate for every budget/history/flag combination (with and without restoration; the incoherent '
              'early-stop branch is proved unreachable); (K+lam I)alpha=Y iff K alpha = Y - lam alpha; uniqueness of the ridge solution '
              'for PSD K and lam>0 (so solve/cholesky/lu must agree), and existence and uniqueness for the Gram matrix of ANY centers under the '
-             'Laplace / product / Lpq kernel with 0<q<=p<=2 (PSD proved, C05 Schoenberg). Correspondence in float64 against real fits: iterate tags vs the '
+             'Laplace / product / Lpq kernel with 0<q<=p<=2 (PSD proved, C05 Schoenberg); over the solver plan regenerated from fit_predictor_lstsq (Gen.Ridge) every '
+             'solver branch hands (K + reg I, Y) to torch.linalg and all branches return the one ridge solution. Correspondence in float64 against real fits: iterate tags vs the '
              'Lean machine and the residual of the ridge system with K recomputed from the stored state by an independent reference, '
              'under a computed rounding allowance.',
         note=TB + 'Modelled, not verified: torch.linalg.solve/cholesky/lu_factor (exact solve; checked through residuals), '
